@@ -69,7 +69,7 @@ class Proof:
 _slice_re = re.compile(r'^[ \t]*//@slice\s+(\S+)\s+(fn|struct|frag)\s+(\S+)(.*)$', re.M)
 
 
-def expand_template(tmpl_text, rules, slices_out, mutate=None, workroot=None):
+def expand_template(tmpl_text, rules, slices_out, mutate=None, workroot=None, defines=()):
     """Expand //@slice directives. rules: {slice-name: [(rule,arg),...]}.
     mutate: optional (regex, replacement) applied to every *sliced* text (self-test mutants)."""
     def rep(mo):
@@ -79,6 +79,9 @@ def expand_template(tmpl_text, rules, slices_out, mutate=None, workroot=None):
             rel = os.path.join(workroot, 'gen', rel[5:])
         opts = dict(kv.split('=', 1) for kv in rest.split() if '=' in kv and not kv.startswith('/'))
         key = opts.get('key', name)
+        if 'ifdef' in opts and opts['ifdef'] not in [d.split('=')[0] for d in defines]:
+            # a slice that only the proofs defining <NAME> need (the text around it is guarded by #ifdef <NAME> in the template)
+            return '// ---- slice %s %s not needed by this proof (ifdef=%s) ----' % (kind, name, opts['ifdef'])
         rl = rules.get(key, ())
         if kind == 'fn':
             nth = int(opts['nth']) if 'nth' in opts else None
@@ -305,7 +308,7 @@ def run_proof(proof, workroot, mutate=None, keep=False, quiet=False):
         with open(os.path.join(VERIF, proof.impl)) as f:
             tmpl = f.read()
         try:
-            body = expand_template(tmpl, proof.rules, slices, mut, workroot)
+            body = expand_template(tmpl, proof.rules, slices, mut, workroot, proof.defines)
         except slicer.SliceError as e:
             raise Undecided('slice: %s' % e)
         if mutate is not None and not mut[2]:
